@@ -64,8 +64,8 @@ LEVEL_TEXT = ("Exploration: thousands of generated inverse problems per run; eac
               "independent totals and database-text stoichiometry. Completeness of the model search is not asserted; five solver defects "
               "of the pinned tree are excluded by detection and counted.")
 FLOORS = {"quick": 150, "thorough": 1500}
-SHARDS = {"quick": 4, "thorough": 4}
-BUDGET = {"quick": 250, "thorough": 2800, "replay": 1}
+SHARDS = {"quick": 8, "thorough": 16}
+BUDGET = {"quick": 250, "thorough": 700, "replay": 1}
 
 SKIP_EL = ("H", "O", "e")
 
@@ -417,14 +417,15 @@ def verify(case, comps, numbers, heads, rows, printed, summary, toler, chem, ctx
         if abs(alpha[-1] - 1.0) > 1e-9:
             fail("fraction_final", "%s: fraction of the final solution is %r, not 1" % (tag, alpha[-1]))
         # known finding F4 (the solver's final verification of the sign restrictions is dead code): a wrong-signed transfer below
-        # 0.1 % of the largest transfer of the model is counted, not alarmed (strict in the registered replay)
+        # 0.1 % of the largest transfer of the model (for the water phase: of the water of the final solution) is counted, not
+        # alarmed (strict in the registered replay)
         big = max([abs(x[j]) for j in range(nph) if phases[j] != "H2O(g)"] + [0.0])
         big_all = max([abs(v) for v in x] + [0.0])
         for j, (p, con, force) in enumerate(inv["phases"]):
             wrong = (con == "dis" and x[j] < -(tol10 * 1.05 + 1e-13)) or (con == "pre" and x[j] > (tol10 * 1.05 + 1e-13))
             if not wrong:
                 continue
-            if not strict and abs(x[j]) <= 1e-3 * (big_all if p == "H2O(g)" else big):
+            if not strict and abs(x[j]) <= 1e-3 * (max(big_all, comps[-1]["water"] / 0.018) if p == "H2O(g)" else big):
                 ctx.event("known_F4:small_wrong_signed_transfer")
                 continue
             if con == "dis":
